@@ -8,6 +8,7 @@ CONSTANT Pads = {}
 CONSTANT SzAs = {}
 CONSTANT SzBs = {}
 CONSTANT WrapDefect = TRUE
+CONSTANT FullW = 0
 INIT Init
 NEXT Next
 INVARIANT NeverWrapped
